@@ -126,7 +126,10 @@ def run_al(case, tid):
     m = prob["m"]
     k0 = case["kappa0"]
     obj = get_objective(m, k0)
-    obj.p = make_p(prob)
+    p_target = make_p(prob)
+    # the objective still carries the parameters of a previous (different) problem: the solve must install the requested ones
+    stale = dict(prob); stale["b"] = [v + 0.7 for v in prob["b"]]
+    obj.p = make_p(stale)
     obj.lam = np.array(case["lam0"], dtype=float)
     obj.reset_kappa()
     alS = AlSolver.get_settings(**case["al"])
@@ -169,7 +172,7 @@ def run_al(case, tid):
         with Silence():
             try:
                 obj.update_precond(x0)
-                x1 = AlSolver.augmented_lagrange_solve(obj, x0, obj.p, AlSolver.get_settings(tol=1e-9), subS, useWarmStart=False,
+                x1 = AlSolver.augmented_lagrange_solve(obj, x0, p_target, AlSolver.get_settings(tol=1e-9), subS, useWarmStart=False,
                                                        updatePrecond=False)
                 x0 = np.array(x1) + np.array(case["carry"])
             except Exception:
@@ -179,7 +182,7 @@ def run_al(case, tid):
     with Silence():
         try:
             obj.update_precond(x0)
-            xr = AlSolver.augmented_lagrange_solve(obj, x0, obj.p, alS, subS, callback=cb, useWarmStart=False,
+            xr = AlSolver.augmented_lagrange_solve(obj, x0, p_target, alS, subS, callback=cb, useWarmStart=False,
                                                    updatePrecond=False, **kwargs)
         except NameError:
             raised = "NameError"
